@@ -42,6 +42,7 @@ const (
 	kindBatch   = "liar-batch"   // checkpointed: the batch-liar is the only peer at first
 	clCPOnly    = "cp-only-liar" // false filter checkpoint, honest cfheaders (the checkpoint is provably not what its own cfheaders add up to)
 	kindCPOnly  = "checkpoint-only-liar"
+	kindLone    = "lone-liar-then-honest"
 	kindRace    = "redial-race"
 	kindSvc     = "services"
 	kindLiar    = "liar-tip"
@@ -119,6 +120,10 @@ func (pp EnfPeerPlan) label() string {
 			l += ":late"
 		}
 		return l
+	case clHonest:
+		if pp.Late {
+			return pp.Class + ":late"
+		}
 	case clBadBlock:
 		return pp.Class + ":" + pp.BlockMut
 	}
@@ -165,8 +170,10 @@ func EnfPlanFromSeed(seed int64, k int) EnfPlan {
 		p.Kind = kindRace
 	case 1:
 		p.Kind = kindCPOnly
+	case 2:
+		p.Kind = kindLone
 	default:
-		p.Kind = enfKindCycle[(k-2)%len(enfKindCycle)]
+		p.Kind = enfKindCycle[(k-3)%len(enfKindCycle)]
 	}
 	tipLen := 100 + r.Intn(301)
 	cpLen := 1010 + r.Intn(1191)
@@ -231,6 +238,17 @@ func EnfPlanFromSeed(seed int64, k int) EnfPlan {
 		honest(2)
 		add(EnfPeerPlan{Class: clCPOnly, Lie: &netsim.Lie{Kind: netsim.LieCheckpt, Height: 1000}})
 		p.Hold = true
+		return p
+
+	case kindLone:
+		// FIXED scenario: a filter-header liar is the client's ONLY peer
+		// during the initial sync (nobody contradicts it); two honest peers
+		// are admitted afterwards.
+		p.ChainLen = 150
+		p.Preset, p.Interval = 0, 8
+		add(EnfPeerPlan{Class: clLiar, Lie: &netsim.Lie{Kind: netsim.LieWrongHash, Height: 75}})
+		add(EnfPeerPlan{Class: clHonest, Late: true})
+		add(EnfPeerPlan{Class: clHonest, Late: true})
 		return p
 
 	case kindSvc:
